@@ -27,6 +27,8 @@ SCENARIOS = [  # name, lost (None=no reader actor, False=without error, True=wit
     ("lost_exc_user", True, True, True, 2),
     ("lost_noexc_user", False, True, False, 3),
     ("plain", None, False, False, 4),          # two producer threads and the real poll loop, no faults
+    ("stop", None, "stop", False, 3),          # the user calls SyncTasks.stop() (disconnect + stop flag) while the pump works
+    ("lost_exc_stop", True, "stop", True, 2),
 ]
 
 
@@ -38,10 +40,27 @@ def execute(args):
     import mysensors.task as TASK
     import mysensors.transport as TR
     from .sched import Sched
-    (name, lost, user, connector, nmsgs, switches) = args
+    (name, lost, user, connector, nmsgs, switches) = args[:6]
+    kind = args[6] if len(args) > 6 else "fake"
     events = []
     state = {"kpend": 0, "nconn": 1, "finished": set()}
     sched = Sched([TR.__file__, TASK.__file__], switches)
+
+    class SLock:
+        """threading.Lock as the scheduler sees it: an actor that finds it taken hands the baton on instead of blocking the
+        whole (one-baton) execution."""
+        def __init__(self):
+            self.held = False
+
+        def __enter__(self):
+            if self.held:
+                sched.wait_until(sched.cur, lambda: not self.held)
+            self.held = True
+            return self
+
+        def __exit__(self, *a):
+            self.held = False
+            return False
 
     def who():
         return {"pump": "sender", "reader": "reader", "user": "user", "connector": "connector"}.get(sched.cur, "producer")
@@ -61,12 +80,46 @@ def execute(args):
             events.append({"a": "close", "c": self.cid, "m": 0, "who": who()})
             self.open = False
 
+        # the same device seen as a socket (kind "tcp")
+        def sendall(self, data):
+            try:
+                self.write(data)
+            except serial.SerialException as exc:
+                raise OSError(9, "Bad file descriptor") from exc
+
+        def setblocking(self, flag):
+            pass
+
+        def fileno(self):
+            return 3 + self.cid if self.open else -1
+
+    def transport_for(conn):
+        """What protocol.transport holds: the fake device itself, or the library's real TCP transport object around it
+        (reader thread not started: the scenario's reader actor plays its part)."""
+        if kind == "fake":
+            return conn
+        import mysensors.gateway_tcp as GT
+
+        class Select:
+            @staticmethod
+            def select(r, w, x, timeout=None):
+                for sck in list(r) + list(w) + list(x):
+                    if sck.fileno() < 0:
+                        raise ValueError("file descriptor cannot be a negative integer (-1)")   # what select() says about a closed socket
+                return [], list(w), []
+        GT.select = Select
+        t = GT.TCPTransport(conn, lambda: tr.protocol, lambda: None)
+        t._lock = SLock()
+        t.join = lambda timeout=None: None          # ReaderThread.close() joins the reader thread, which the harness plays itself
+        return t
+
     gw = mysensors.Gateway()
     tr = TR.SyncTransport(gw, lambda t: None)
+    tr._lock = SLock()
     gw.tasks = TASK.SyncTasks(gw.const, False, None, gw.sensors, tr)
     gw.on_conn_lost = lambda g, e: events.append({"a": "cb_lost", "c": 0, "m": 0, "who": who()})
     proto = tr.protocol
-    proto.connection_made(Conn(1))
+    proto.connection_made(transport_for(Conn(1)))
 
     def reconnect():
         events.append({"a": "reconnect", "c": 0, "m": 0, "who": who()})
@@ -91,10 +144,12 @@ def execute(args):
         """time as seen from mysensors.task: the idle sleep of the real _poll_queue parks on the scheduler."""
         @staticmethod
         def sleep(d):
+            if gw.tasks._stop_event.is_set():
+                return
             if producers <= state["finished"] and not gw.tasks.queue:
                 gw.tasks._stop_event.set()      # everything queued has been handled: let the loop end
                 return
-            sched.wait_until("pump", lambda: bool(gw.tasks.queue) or producers <= state["finished"])
+            sched.wait_until("pump", lambda: bool(gw.tasks.queue) or producers <= state["finished"] or gw.tasks._stop_event.is_set())
 
         @staticmethod
         def time():
@@ -115,7 +170,10 @@ def execute(args):
 
     def user_actor():
         try:
-            tr.disconnect()
+            if user == "stop":
+                gw.tasks.stop()                 # the real SyncTasks.stop (no persistence configured)
+            else:
+                tr.disconnect()
         finally:
             state["finished"].add("user")
 
@@ -134,7 +192,7 @@ def execute(args):
                 # between, otherwise a write to it could be logged before the event that made it visible
                 sched.atomic = True
                 try:
-                    tr.protocol.connection_made(c)   # what ReaderThread.run does first
+                    tr.protocol.connection_made(transport_for(c))   # what ReaderThread.run does first
                     events.append({"a": "made", "c": c.cid, "m": 0, "who": "connector"})
                 finally:
                     sched.atomic = False
@@ -151,7 +209,9 @@ def execute(args):
     for k, v in raised.items():
         events.append({"a": "raised", "c": 0, "m": 0, "who": {"pump": "sender"}.get(k, k), "text": v[:80]})
     nwrites = sum(1 for e in events if e["a"] == "write")
-    return {"scenario": name, "switches": switches, "ev": events, "nproduced": nmsgs, "ndropped": nmsgs - nwrites,
+    nleft = len(gw.tasks.queue)                 # after stop(): still queued, never sent
+    return {"scenario": name, "kind": kind, "switches": switches, "ev": events, "nproduced": nmsgs, "ndropped": nmsgs - nwrites - nleft,
+            "nleft": nleft,
             "steps": sched.step, "raised": raised, "hung": sched.deadlock}
 
 
@@ -159,7 +219,7 @@ def run(tier):
     rep = common.Report(PID, tier)
     wd = common.workdir(PID)
     # ---- M
-    for cfg in ("SendRace_fixed_exc", "SendRace_fixed_noexc", "SendRace_snap_only"):
+    for cfg in ("SendRace_fixed_exc", "SendRace_fixed_noexc", "SendRace_snap_only", "SendRace_stop"):
         r = tlc.run("SendRace", os.path.join(common.SPEC, cfg + ".cfg"), workdir=os.path.join(wd, cfg), timeout=900)
         if r.violation:
             raise tlc.MachineryError(f"SendRace.tla ({cfg}) violates {r.violation}\n{r.trace_text[:2000]}")
@@ -173,6 +233,10 @@ def run(tier):
     jobs = []
     for (name, lost, user, connector, nmsgs) in SCENARIOS:
         probe = execute((name, lost, user, connector, nmsgs, {}))
+        if probe["hung"]:
+            rep.violation({"kind": "execution-never-finishes", "scenario": name},
+                          {"scenario": name, "switches": {}, "events": probe["ev"], "raised": probe["raised"]})
+            return rep.finish()
         nsteps = probe["steps"] + 4
         acts = (["producer0", "producer1"] if name == "plain" else ["producer0"]) + ["pump"] + (["reader"] if lost is not None else []) + (["user"] if user else []) + \
                (["connector"] if connector else [])
@@ -188,16 +252,29 @@ def run(tier):
             scheds = schedules(nsteps, acts, 2)
             scheds += [{s: rng.choice(acts) for s in sorted(rng.sample(range(1, nsteps + 1), 3))} for _ in range(6000)]
         for sw in scheds:
-            jobs.append((name, lost, user, connector, nmsgs, sw))
+            jobs.append((name, lost, user, connector, nmsgs, sw, "fake"))
+        # the same schedules with the library's real TCP transport object between send() and the device
+        for sw in (scheds if tier == "thorough" else scheds[:1 + nsteps * len(acts)] + scheds[1 + nsteps * len(acts)::3]):
+            jobs.append((name, lost, user, connector, nmsgs, sw, "tcp"))
+    runs, hung = [], []
     with mp.get_context("fork").Pool(common.ncpu()) as pool:
-        runs = pool.map(execute, jobs, chunksize=32)
-    hung = [x for x in runs if x["hung"]]
+        for x in pool.imap_unordered(execute, jobs, chunksize=16):
+            (hung if x["hung"] else runs).append(x)
+            if len(hung) >= 3:
+                pool.terminate()            # every hung run costs seconds of real time; three are enough to report
+                break
+    for x in hung:
+        # an actor blocks for ever inside the library (not at a scheduler switch point): whatever is still queued is
+        # neither sent nor dropped
+        rep.violation({"kind": "execution-never-finishes", "scenario": x["scenario"]},
+                      {"scenario": x["scenario"], "switches": x["switches"], "events": x["ev"], "raised": x["raised"]})
     if hung:
-        raise tlc.MachineryError(f"scheduler deadlock in {len(hung)} runs, e.g. {hung[0]['scenario']} {hung[0]['switches']}")
+        rep.cov["evaluations"] = len(runs) + len(hung)
+        return rep.finish()
     # distinct event sequences only (many schedules produce the same observable behaviour)
     groups = {}
     for x in runs:
-        key = (x["scenario"], json.dumps(x["ev"]))
+        key = (x["scenario"], json.dumps(x["ev"]))          # (the kind of transport object is not part of the observable behaviour)
         groups.setdefault(key, x)
     by_scn = {}
     for (scn, _), x in groups.items():
@@ -210,14 +287,14 @@ def run(tier):
         path = os.path.join(wd, f"{scn}.ndjson")
         with open(path, "w", encoding="utf-8") as fh:
             for t in ts:
-                fh.write(json.dumps({"ev": t["ev"], "nproduced": t["nproduced"], "ndropped": t["ndropped"]}) + "\n")
+                fh.write(json.dumps({"ev": t["ev"], "nproduced": t["nproduced"], "ndropped": t["ndropped"], "nleft": t["nleft"]}) + "\n")
         cfg = os.path.join(wd, f"{scn}.cfg")
         with open(cfg, "w", encoding="utf-8") as fh:
             fh.write(f"SPECIFICATION TSpec\nCONSTANTS NMsgs = {nmsgs}\n Snapshot = TRUE\n ClearFirst = TRUE\n"
-                     f" LostExc = {'TRUE' if lost else 'FALSE'}\n WithUser = {'TRUE' if user else 'FALSE'}\n"
+                     f" LostExc = {'TRUE' if lost else 'FALSE'}\n WithUser = {'TRUE' if user else 'FALSE'}\n WithStop = {'TRUE' if user == 'stop' else 'FALSE'}\n"
                      f" WithLost = {'TRUE' if lost is not None else 'FALSE'}\n WithConnector = {'TRUE' if connector else 'FALSE'}\n"
                      " MaxConn = 4\nCONSTRAINT Track\nPOSTCONDITION Post\nCHECK_DEADLOCK FALSE\n"
-                     "INVARIANT NoExceptionIntoPump\nINVARIANT AtMostOnce\nINVARIANT QueueOrder\n")
+                     "INVARIANT NoExceptionIntoPump\nINVARIANT AtMostOnce\nINVARIANT QueueOrder\nINVARIANT Conservation\n")
         r = tlc.run("SendRaceTrace", cfg, workdir=os.path.join(wd, "t_" + scn), workers=1, deque=True,
                     env={"TRACE_FILE": path}, timeout=1800)
         tlc.must_ok(r, f"SendRaceTrace {scn}")
@@ -235,7 +312,7 @@ def run(tier):
         sig = {"kind": "not-a-behaviour-of-SendRace", "scenario": x["scenario"],
                "raised": sorted({v.split(":")[0] for v in x["raised"].values()}),
                "events": [e["a"] for e in x["ev"]][-4:]}
-        rep.violation(sig, {"scenario": x["scenario"], "switches": x["switches"], "events": x["ev"], "raised": x["raised"]})
+        rep.violation(sig, {"scenario": x["scenario"], "kind": x["kind"], "switches": x["switches"], "events": x["ev"], "raised": x["raised"]})
     rep.cov["traces_validated_against_impl"] = len(groups)
     rep.cov["evaluations"] = len(runs)
     for k in groups:
@@ -256,6 +333,6 @@ def replay(path):
     with open(path, encoding="utf-8") as fh:
         d = json.load(fh)["replay"]
     scn = next(s for s in SCENARIOS if s[0] == d["scenario"])
-    x = execute(scn + ({int(k): v for k, v in d["switches"].items()},))
+    x = execute(scn + ({int(k): v for k, v in d["switches"].items()}, d.get("kind", "fake")))
     print(json.dumps(x, indent=1)[:3000])
     return 0
